@@ -14,7 +14,7 @@ import (
 )
 
 type XExpr struct {
-	K    string  `json:"k"`              // lit | opaque | nil | ident | call | fn | funclit
+	K    string  `json:"k"`              // lit | opaque | nil | ident | call | fn | funclit | spread (a []error operand followed by ..., V: its text)
 	V    string  `json:"v,omitempty"`    // lit: the literal text
 	Ty   byte    `json:"ty,omitempty"`   // type letter of the expression (i s e)
 	X    int     `json:"x,omitempty"`    // ident: variable (see xVarName)
@@ -33,7 +33,7 @@ type XStmt struct {
 type XFunc struct {
 	Tys    string  `json:"tys"`              // one letter per result
 	Named  bool    `json:"named,omitempty"`  // results are named r<f>_<i>
-	Param  string  `json:"param,omitempty"`  // "" | e (e error) | f1 (fn func() error) | f2 (fn func() (int, error))
+	Param  string  `json:"param,omitempty"`  // "" | e (e error) | f1 (fn func() error) | f2 (fn func() (int, error)) | ve (es ...error) | ev (e error, es ...error)
 	Lit    bool    `json:"lit,omitempty"`    // a function literal, printed where it is used
 	Parent int     `json:"parent,omitempty"` // literal: the enclosing top-level function
 	NoBody bool    `json:"nobody,omitempty"` // declared without body
@@ -154,6 +154,8 @@ func (c *xprogCase) exprSrc(e XExpr, indent string) string {
 		return xVarName(e.X)
 	case "fn":
 		return "fn()"
+	case "spread":
+		return e.V + "..."
 	case "funclit":
 		fn := c.Fs[e.F]
 		var b strings.Builder
@@ -245,8 +247,8 @@ func (c *xprogCase) sources(idx int) map[string]string {
 	if c.hasLib() {
 		fmt.Fprintf(&b, "import lib \"%s/c%d/lib\"\n\nvar _ = lib.Use\n\n", batchMod, idx)
 	}
-	b.WriteString("var vi int\nvar vs string\nvar va any\nvar cond bool\nvar pkgErr error\n\nvar st struct {\n\tfe error\n\tfi int\n}\n\nfunc use(...any) {}\n\n")
-	lb.WriteString("package lib\n\nvar vi int\nvar vs string\nvar va any\nvar cond bool\nvar libErr error\nvar libInt int\n\nfunc use(...any) {}\n\nfunc Use(...any) {}\n\n")
+	b.WriteString("var vi int\nvar vs string\nvar va any\nvar cond bool\nvar pkgErr error\n\nvar st struct {\n\tfe error\n\tfi int\n}\n\nfunc use(...any) {}\n\nfunc mkErrs() []error { return nil }\n\n")
+	lb.WriteString("package lib\n\nvar vi int\nvar vs string\nvar va any\nvar cond bool\nvar libErr error\nvar libInt int\n\nfunc use(...any) {}\n\nfunc Use(...any) {}\n\nfunc mkErrs() []error { return nil }\n\n")
 	mainB := &b
 	for f, fn := range c.Fs {
 		if fn.Lit {
@@ -258,7 +260,7 @@ func (c *xprogCase) sources(idx int) map[string]string {
 		if fn.Lib {
 			b, name = &lb, fmt.Sprintf("H%d", f)
 		}
-		param := map[string]string{"": "", "e": "e error", "f1": "fn func() error", "f2": "fn func() (int, error)"}[fn.Param]
+		param := map[string]string{"": "", "e": "e error", "f1": "fn func() error", "f2": "fn func() (int, error)", "ve": "es ...error", "ev": "e error, es ...error"}[fn.Param]
 		var rs []string
 		for i := range fn.Tys {
 			if fn.Named {
@@ -276,7 +278,7 @@ func (c *xprogCase) sources(idx int) map[string]string {
 		b.WriteString("}\n\n")
 	}
 	c.curLib = false
-	files := map[string]string{"p.go": b.String(), "q.go": "package p\n\nvar otherErr error\nvar otherInt int\n"}
+	files := map[string]string{"p.go": b.String(), "q.go": "package p\n\nvar otherErr error\nvar otherInt int\nvar otherErrs []error\n"}
 	if c.hasLib() {
 		files["lib/lib.go"] = lb.String()
 	}
@@ -300,18 +302,17 @@ func (c *xprogCase) exprEnc(e XExpr, out *[]string) {
 		*out = append(*out, "O"+hx(goTy[e.Ty]))
 	case "ident":
 		*out = append(*out, fmt.Sprintf("I%d,%s,t%s", e.X, b01(xObjNil(e.X)), hx(goTy[e.Ty])))
+	case "spread":
+		*out = append(*out, "O"+hx("[]error")) // stands in the variadic parameter, whose type is []error: never looked at
 	case "fn":
 		*out = append(*out, fmt.Sprintf("C-,%s,_,0", xTyLetters(string(e.Ty))))
 	case "funclit":
 		*out = append(*out, fmt.Sprintf("U%d,%s", e.F, hx("func()")))
 	case "call":
 		callee := c.Fs[e.F]
-		perr := "_"
-		if callee.Param == "e" {
-			perr = "1"
-		} else if callee.Param != "" {
-			perr = "0"
-		}
+		// one bit per declared parameter: is its type `error`?  (a variadic `es ...error` has type []error; arguments
+		// beyond the declared parameters have no bit)
+		perr := map[string]string{"": "_", "e": "1", "f1": "0", "f2": "0", "ve": "0", "ev": "10"}[callee.Param]
 		target := fmt.Sprint(e.F)
 		*out = append(*out, fmt.Sprintf("C%s,%s,%s,%d", target, xTyLetters(callee.Tys), perr, len(e.Args)))
 		for _, a := range e.Args {
@@ -553,6 +554,36 @@ func (c *xprogCase) Shrinks() []Case {
 			out = append(out, n)
 		}
 	}
+	// drop the last argument standing in a variadic parameter
+	for k := 0; k < count; k++ {
+		n := c.clone()
+		idx := 0
+		changed := false
+		for f := range n.Fs {
+			for i := range n.Fs[f].Body {
+				for j := range n.Fs[f].Body[i].Rhs {
+					walk(&n.Fs[f].Body[i].Rhs[j], func(e *XExpr) {
+						if idx == k && e.K == "call" {
+							fixed := map[string]int{"ve": 0, "ev": 1}
+							if m, ok := fixed[n.Fs[e.F].Param]; ok && len(e.Args) > m {
+								last := e.Args[len(e.Args)-1]
+								lits := map[int]bool{}
+								litsIn([]XExpr{last}, lits)
+								if len(lits) == 0 {
+									e.Args = e.Args[:len(e.Args)-1]
+									changed = true
+								}
+							}
+						}
+						idx++
+					})
+				}
+			}
+		}
+		if changed {
+			out = append(out, n)
+		}
+	}
 	return out
 }
 
@@ -578,6 +609,9 @@ func (c *xprogCase) Classes() []string {
 	var walk func(e XExpr)
 	walk = func(e XExpr) {
 		m["expr:"+e.K] = true
+		if e.K == "call" && (c.Fs[e.F].Param == "ve" || c.Fs[e.F].Param == "ev") {
+			m["call:variadic"] = true
+		}
 		if e.K == "ident" {
 			switch {
 			case e.X >= 9000:
@@ -659,7 +693,7 @@ func (g *xgen) vars(f int, t byte, assignable bool) []int {
 				}
 			}
 		}
-		if fn.Param == "e" && t == 'e' {
+		if (fn.Param == "e" || fn.Param == "ev") && t == 'e' {
 			out = append(out, h*100+40)
 		}
 	}
@@ -711,7 +745,7 @@ func (g *xgen) expr(f int, t byte, depth int) XExpr {
 			if depth < 3 {
 				var cands []int
 				for j, fn := range g.fs {
-					if !fn.Lit && fn.Tys == string(t) && (fn.Param == "" || fn.Param == "e" || depth < 2) && (fn.Lib || !g.fs[f].Lib) {
+					if !fn.Lit && fn.Tys == string(t) && (fn.Param == "" || fn.Param == "e" || fn.Param == "ve" || fn.Param == "ev" || depth < 2) && (fn.Lib || !g.fs[f].Lib) {
 						cands = append(cands, j)
 					}
 				}
@@ -749,6 +783,21 @@ func (g *xgen) call(f, callee int, t byte, depth int) XExpr {
 		e.Args = []XExpr{g.expr(f, 'e', depth+1)}
 	case "f1", "f2":
 		e.Args = []XExpr{{K: "funclit", F: g.newLit(f, g.fs[callee].Param, depth)}}
+	case "ve", "ev":
+		if g.fs[callee].Param == "ev" {
+			e.Args = []XExpr{g.expr(f, 'e', depth+1)}
+		}
+		if g.r.Chance(35) { // the slice spread into the variadic parameter
+			ops := []string{"mkErrs()"}
+			if !g.fs[f].Lib {
+				ops = append(ops, "otherErrs", "otherErrs")
+			}
+			e.Args = append(e.Args, XExpr{K: "spread", V: Pick(g.r, ops)})
+		} else {
+			for n := g.r.Intn(3); n > 0; n-- {
+				e.Args = append(e.Args, g.expr(f, 'e', depth+1))
+			}
+		}
 	}
 	return e
 }
@@ -760,7 +809,7 @@ func (g *xgen) body(f int, depth int) []XStmt {
 	tuple := func(tys string) (int, bool) {
 		var cands []int
 		for j, h := range g.fs {
-			if !h.Lit && h.Tys == tys && (h.Param == "" || h.Param == "e" || depth < 2) && (h.Lib || !fn.Lib) {
+			if !h.Lit && h.Tys == tys && (h.Param == "" || h.Param == "e" || h.Param == "ve" || h.Param == "ev" || depth < 2) && (h.Lib || !fn.Lib) {
 				cands = append(cands, j)
 			}
 		}
@@ -859,7 +908,7 @@ func genXProg(r *Rng) *xprogCase {
 		if r.Chance(20) {
 			b = []byte("ie")
 		}
-		fn := XFunc{Tys: string(b), Named: r.Chance(35), Param: Pick(r, []string{"", "", "", "e", "e", "f1", "f2"})}
+		fn := XFunc{Tys: string(b), Named: r.Chance(35), Param: Pick(r, []string{"", "", "", "e", "e", "f1", "f2", "ve", "ev"})}
 		for m := r.Intn(4); m > 0; m-- {
 			fn.Locals += string("isee"[r.Intn(4)])
 		}
@@ -950,5 +999,5 @@ var xprogStream = &Stream{
 	Name: "extended-programs", Quick: 1500, Thorough: 10000, New: func() Case { return &xprogCase{} },
 	Gen:      func(r *Rng, i int) Case { return genXProg(r) },
 	BatchRun: xprogBatch, ShrinkBudget: 40, MaxShrinks: 5,
-	Rule: "programs of 2–6 functions over the extended language of Model/Resolver2: 1–3 results of int/string/error (named in a third of the functions), parameters none / `e error` / `fn func() error` / `fn func() (int, error)`, 0–3 local variables, 1–6 statements (some inside `if` blocks) among single, tuple, forwarding (`x, err = F()`) and `+=` assignments to locals, named results, captured variables, package variables and struct fields, full / forwarding / bare returns; expressions: literals, nil, opaque, identifiers (locals, named results, parameters, package variables of the same and of another file, selectors), calls with an error argument (itself an identifier, nil or a call) or a function literal argument with its own locals and statements, calls through a function-typed parameter, calls through a selector into functions of a sub-package (which call one another, use that package's variables and take literals too), functions declared without body, and a literal-only function now and then; printed to Go (two files), loaded with the real loader (100 per load), every top-level function of a program asked one after the other on the same loaded package in supervised children (the model answers each question from scratch); every statement carries its source-order number for the model; compared: FuncResults.String(); oracle as for the core programs",
+	Rule: "programs of 2–6 functions over the extended language of Model/Resolver2: 1–3 results of int/string/error (named in a third of the functions), parameters none / `e error` / `fn func() error` / `fn func() (int, error)` / `es ...error` / `e error, es ...error` (called with 0–2 listed arguments or with a slice spread into them), 0–3 local variables, 1–6 statements (some inside `if` blocks) among single, tuple, forwarding (`x, err = F()`) and `+=` assignments to locals, named results, captured variables, package variables and struct fields, full / forwarding / bare returns; expressions: literals, nil, opaque, identifiers (locals, named results, parameters, package variables of the same and of another file, selectors), calls with an error argument (itself an identifier, nil or a call) or a function literal argument with its own locals and statements, calls through a function-typed parameter, calls through a selector into functions of a sub-package (which call one another, use that package's variables and take literals too), functions declared without body, and a literal-only function now and then; printed to Go (two files), loaded with the real loader (100 per load), every top-level function of a program asked one after the other on the same loaded package in supervised children (the model answers each question from scratch); every statement carries its source-order number for the model; compared: FuncResults.String(); oracle as for the core programs",
 }
